@@ -240,6 +240,7 @@ func (f *Font) makeTemplateData(opt *WriterOptions) *fontInfo {
 		Copyright:          f.FontInfo.Copyright,
 		CreationDate:       f.CreationDate,
 		Encoding:           f.Encoding,
+		ExplicitEncoding:   f.hidesStandardGlyph(),
 		FamilyName:         f.FontInfo.FamilyName,
 		FontMatrix:         fontMatrix,
 		FontName:           f.FontInfo.FontName,
@@ -300,11 +301,29 @@ func (f *Font) encodeCharstrings() map[string]string {
 	return charStrings
 }
 
-func writeEncoding(encoding []string) string {
+// hidesStandardGlyph reports whether the encoding leaves the standard code of
+// an existing glyph unassigned.  In this case the StandardEncoding shortcut
+// cannot be used, since it would assign the code.
+func (f *Font) hidesStandardGlyph() bool {
+	if len(f.Encoding) != 256 {
+		return false
+	}
+	for i, s := range f.Encoding {
+		std := psenc.StandardEncoding[i]
+		if s == ".notdef" && std != ".notdef" {
+			if _, ok := f.Glyphs[std]; ok {
+				return true
+			}
+		}
+	}
+	return false
+}
+
+func writeEncoding(encoding []string, explicit bool) string {
 	if len(encoding) != 256 {
 		return ""
 	}
-	if isStandardEncoding(encoding) {
+	if !explicit && isStandardEncoding(encoding) {
 		return "/Encoding StandardEncoding def\n"
 	}
 
@@ -367,7 +386,7 @@ var tmpl = template.Must(template.New("type1").Funcs(template.FuncMap{
 /UnderlineThickness {{.UnderlineThickness}} def
 end def
 /FontName {{.FontName|PN}} def
-{{ .Encoding|E -}}
+{{ E .Encoding .ExplicitEncoding -}}
 /PaintType 0 def
 /FontType 1 def
 /FontMatrix {{ .FontMatrix }} def
@@ -446,6 +465,7 @@ type fontInfo struct {
 	Copyright          string
 	CreationDate       time.Time
 	Encoding           []string
+	ExplicitEncoding   bool
 	FamilyName         string
 	FontMatrix         [6]float64
 	FontName           string
